@@ -222,3 +222,107 @@ pub fn explore(t: &mut Trace, seed: u64, cases: u64) {
         let _ = std::fs::remove_dir_all(&dir);
     }
 }
+
+/// `sv-c13 burn-child <dir> <n>`: `id_for` of `n` fresh names, each acknowledged on stdout.
+pub fn burn_child() {
+    let a: Vec<String> = std::env::args().collect();
+    let dir = PathBuf::from(&a[2]);
+    let n: usize = a[3].parse().unwrap();
+    let mut sys = rocks_sys_at(dir);
+    let out = std::io::stdout();
+    let mut out = out.lock();
+    let r = sys.run(&format!("open 0 0 {}", URI_HEX));
+    writeln!(out, "{}", r).unwrap();
+    out.flush().unwrap();
+    for i in 0..n {
+        let r = sys.run(&format!("id 0 {}", hex(format!("n{}", i).as_bytes())));
+        writeln!(out, "{}", r).unwrap();
+        out.flush().unwrap();
+    }
+    loop {
+        std::thread::sleep(std::time::Duration::from_millis(50));
+    }
+}
+
+/// `sv-c13 burn-probe <seed> <tries>` (experiment, not part of `./check`): is the cut *between* the two writes of
+/// `KeyStore::id_for` (`merge_keyspace(counter)`, `put_keyspace(name)`) reachable in the real store? A child allocates
+/// ids for fresh names `n0, n1, …`; it is SIGKILLed at a random moment; the parent reopens the directory and asks
+/// for `n0 … n(k-1)` (k = acknowledged), then for `n(k)` (the one in flight) and for one more fresh name.
+/// `id(n(k)) = k+1` : cut before the merge or after the put (the two-way reading);
+/// `id(n(k)) = k+2` : the counter was merged and the name not stored — id `k+1` is burnt (third shape of
+/// `C13_crash_acknowledged_prefix_partial`). Prints one line per try and a summary.
+pub fn burn_probe() {
+    let a: Vec<String> = std::env::args().collect();
+    let seed: u64 = a[2].parse().unwrap();
+    let tries: u64 = a[3].parse().unwrap();
+    let exe = std::env::current_exe().expect("current_exe");
+    let mut rng = Rng::new(seed ^ 0xB0_2411);
+    let (mut burnt, mut clean, mut other) = (0u64, 0u64, 0u64);
+    for c in 0..tries {
+        let n = 4000usize;
+        let dir = scratch_dir(&format!("burn{}-{}", seed, c));
+        let mut child = Command::new(&exe)
+            .arg("burn-child")
+            .arg(&dir)
+            .arg(n.to_string())
+            .stdout(Stdio::piped())
+            .stderr(Stdio::null())
+            .spawn()
+            .expect("spawn child");
+        let stdout = child.stdout.take().unwrap();
+        let mut rd = BufReader::new(stdout);
+        let kill_after = 1 + rng.below(200) as usize;
+        let delay_us = rng.below(300);
+        let mut outs: Vec<String> = vec![];
+        let mut line = String::new();
+        while outs.len() < kill_after {
+            line.clear();
+            if rd.read_line(&mut line).unwrap_or(0) == 0 {
+                break;
+            }
+            outs.push(line.trim_end().to_string());
+        }
+        if delay_us > 0 {
+            std::thread::sleep(std::time::Duration::from_micros(delay_us));
+        }
+        let _ = child.kill();
+        loop {
+            line.clear();
+            if rd.read_line(&mut line).unwrap_or(0) == 0 {
+                break;
+            }
+            if line.ends_with('\n') {
+                outs.push(line.trim_end().to_string());
+            }
+        }
+        let _ = child.wait();
+        let k = outs.len().saturating_sub(1).min(n); // acknowledged id_for calls
+        let mut sys = rocks_sys_at(dir.clone());
+        let _ = sys.run(&format!("open 0 0 {}", URI_HEX));
+        let mut stable = true;
+        for i in 0..k {
+            let r = sys.run(&format!("id 0 {}", hex(format!("n{}", i).as_bytes())));
+            if r != format!("ok {}", i + 1) {
+                stable = false;
+            }
+        }
+        let r = sys.run(&format!("id 0 {}", hex(format!("n{}", k).as_bytes())));
+        let verdict = if !stable {
+            other += 1;
+            "ACKED-ID-CHANGED"
+        } else if r == format!("ok {}", k + 1) {
+            clean += 1;
+            "acked-or-inflight"
+        } else if r == format!("ok {}", k + 2) {
+            burnt += 1;
+            "id-burnt"
+        } else {
+            other += 1;
+            "OTHER"
+        };
+        println!("try {} acked={} id(inflight)={} {}", c, k, r, verdict);
+        drop(sys);
+        let _ = std::fs::remove_dir_all(&dir);
+    }
+    println!("summary tries={} acked-or-inflight={} id-burnt={} other={}", tries, clean, burnt, other);
+}
